@@ -5,9 +5,17 @@ def _post_build(C, lib, exe):
 
 SPEC = {
     'id': 'C16',
-    'lean_modules': ['AITB.Props.C16'],
+    'lean_modules': ['AITB.Props.C16', 'AITB.Props.C16Solvers'],
     'theorems': [
         'AITB.Hidden.statics_accounted',
+        'AITB.Hidden.solver_fields_accounted',
+        'AITB.Hidden.reset_claims_checked',
+        'AITB.Hidden.roles_are_fields',
+        'AITB.Hidden.const_with_hidden_state_accounted',
+        'AITB.Hidden.no_const_cast',
+        'AITB.Hidden.resetting_reusable',
+        'AITB.Hidden.resetting_history_free',
+        'AITB.Hidden.drained_history_free',
         'AITB.Hidden.seed_stream_deterministic',
         'AITB.Hidden.runSeeder_setRoot_prefix',
         'AITB.Hidden.pool_unobservable',
